@@ -257,6 +257,8 @@ class C13(Prop):
         if r < 0.08:
             sec = rng.choice([0, 1, 59, 86399, 86400, 2**31 - 1, 2**31, 2**32 - 1, 2250741852, 4102444799,
                               951782400, 1582934400, 1483228799])  # leap days, 2038, 2041, end of range
+        elif r < 0.14:
+            sec = rng.randint(-14 * 3600, 14 * 3600)  # local dates in 1970 whose UTC instant lies before the epoch
         else:
             sec = rng.randint(0, 4102444799)
         return sec * M + self._us(rng)
@@ -325,7 +327,10 @@ class C13(Prop):
         if exotic:
             form = "dt"
             off = self._off(rng, "dt") + rng.choice([1, -1, 500, 999, rng.randint(-999, 999)])
-        case = {"k": "ev", "form": form, "loc": T + (off or 0), "off": off, "dur": self._dur(rng),
+        zone = rng.choice(["Africa/Abidjan", "Europe/London", "Atlantic/Reykjavik"]) if form == "dt" and rng.random() < 0.15 else None
+        if zone:
+            off = 0
+        case = {"k": "ev", "form": form, "loc": T + (off or 0), "off": off, "dur": self._dur(rng), "zone": zone,
                 "id": rng.choice([None, None, 0, 1, rng.randint(0, 2**40)]), "data": rng.choice(self.DATAS)}
         if form in ("iso", "z", "naive-iso"):
             us = case["loc"] % M
@@ -488,6 +493,13 @@ class C13(Prop):
     def _ts_input(self, case):
         form = case["form"]
         if form == "dt":
+            if case.get("zone") and case["off"] == 0:
+                # an aware datetime in a real zone whose offset happens to be zero at that instant
+                from zoneinfo import ZoneInfo
+
+                d = mk_aware(case["loc"], 0).replace(tzinfo=ZoneInfo(case["zone"]))
+                if d.utcoffset() == timedelta(0):
+                    return d
             return mk_aware(case["loc"], case["off"])
         if form == "naive-dt":
             return wall_fields(case["loc"])
@@ -522,7 +534,7 @@ class C13(Prop):
             return ["err", ek(ex)]
         ts = e.timestamp
         loc, off = dt_pair(ts)
-        out = {"ev": ev4(e), "utc": ts.tzinfo is not None and off == 0,
+        out = {"ev": ev4(e), "utc": ts.tzinfo is not None and off == 0 and ts.tzinfo == timezone.utc,
                "types": [type(e["timestamp"]).__name__, type(e["duration"]).__name__, type(e["data"]).__name__]}
         try:
             jd = e.to_json_dict()
